@@ -54,7 +54,7 @@ theorem wireType_lt (v : TVal) : v.wireType < 16 ∧ 1 ≤ v.wireType := by
 
 
 theorem takeN_append (a rest : List Nat) : takeN a.length (a ++ rest) = some (a, rest) := by
-  simp [takeN]
+  simp [takeN, List.take_left' rfl, List.drop_left' rfl]
 
 mutual
   theorem decVal_enc : ∀ (v : TVal), v.ok = true → ∀ (fuel : Nat), v.sz ≤ fuel → ∀ (rest : List Nat),
